@@ -263,3 +263,59 @@ Definition run_fan (i : fan_input) : val :=
   let s := run _ stp ops (init _ use locked) in
   VL [VL (map enc_obs (exec _ stp ops (init _ use locked)));
       VL (map (fun o => enc_obs (stp o s)) lasts)].
+
+(* ------------------------------------------------------------------ several configured packages
+   The configured repo hands out a new wrapper for every lookup; raw packages are shared.  A
+   system is a list of wrappers, each with the raw package it wraps and its OWN state; an op is
+   addressed to one wrapper.  Nothing is shared between wrappers in this model: whatever the
+   implementation shares (class, closure, raw package) must not be observable. *)
+Section Multi.
+  Variable V : Type.
+  Variable Er : N -> N -> list N -> V.      (* raw package, attribute, USE set *)
+
+  Definition wst : Type := N * st V.        (* raw package id, wrapper state *)
+
+  Fixpoint mstep_at (w : nat) (o : op) (ws : list wst) : option (res V) * list wst :=
+    match ws with
+    | [] => (None, [])
+    | (raw, s) :: r =>
+        match w with
+        | O => let rs := step V (Er raw) o s in (Some (fst rs), (raw, snd rs) :: r)
+        | S w' => let xr := mstep_at w' o r in (fst xr, (raw, s) :: snd xr)
+        end
+    end.
+
+  Fixpoint mrun (ops : list (nat * op)) (ws : list wst) : list wst :=
+    match ops with
+    | [] => ws
+    | (w, o) :: r => mrun r (snd (mstep_at w o ws))
+    end.
+
+  Fixpoint mexec (ops : list (nat * op)) (ws : list wst) : list (option (res V) * list wst) :=
+    match ops with
+    | [] => []
+    | (w, o) :: r => let x := mstep_at w o ws in x :: mexec r (snd x)
+    end.
+
+  Definition minit (locked : list N) (cfgs : list (N * list N)) : list wst :=
+    map (fun c => (fst c, init V (snd c) locked)) cfgs.
+End Multi.
+
+(* stream "multi": depsets per raw package, (raw, initial USE mask) per wrapper, locked mask,
+   ops addressed to wrappers.  After each op: [result; [mask; count] of EVERY wrapper]. *)
+Definition multi_input : Type :=
+  (list (list (list node)) * list (N * Z) * Z) * list (nat * op).
+
+Definition Er_of (dss : list (list (list node))) (raw a : N) (use : list N) : list N :=
+  E_of (nth (N.to_nat raw) dss []) a use.
+
+Definition enc_mobs (x : option (res (list N)) * list (wst (list N))) : val :=
+  VL [match fst x with Some r => enc_res r | None => VErr [] end;
+      VL (flat_map (fun w => [VZ (mask_of (current_use (snd w))); VZ (count (cfg (snd w)))])
+                   (snd x))].
+
+Definition run_multi (i : multi_input) : val :=
+  let '((dss, cfgs, locked), ops) := i in
+  VL (map enc_mobs
+        (mexec _ (Er_of dss) ops
+           (minit _ (set_of_mask locked) (map (fun c => (fst c, set_of_mask (snd c))) cfgs)))).
